@@ -1,4 +1,134 @@
-import NriModel.Basic
-/-! Property theorems for C10 — placeholder until the model is written. -/
+import NriModel.Lemmas.MuxStream
+/-!
+Property theorems for C10 — multiplexed connections deliver each stream complete, in order
+and isolated.  Model: `NriModel/Mux.lean`.  `mp` = maximum frame payload, `qlen` = read queue
+length; every theorem holds for every value (`0 < mp < 2^32`).
+
+`ws : List (Nat × Bytes)` is the list of `(connection id, buffer)` of all `Write` calls of one
+end in the order they acquired the trunk write lock.  Every schedule of concurrent writers
+is such a list (a `Write` is atomic under `m.writeLock`); that the real trunk stream *is*
+such a concatenation is what the correspondence check measures (trunk tap).
+-/
 namespace Nri.Props.C10
+open Nri.Mux
+
+/-- `binary.BigEndian` header fields survive the round trip. -/
+theorem be32_roundtrip (n : Nat) (h : n < 2 ^ 32) :
+    be32 (UInt8.ofNat (n / 16777216)) (UInt8.ofNat (n / 65536)) (UInt8.ofNat (n / 256))
+      (UInt8.ofNat n) = n ∧
+    be32Encode n = [UInt8.ofNat (n / 16777216), UInt8.ofNat (n / 65536), UInt8.ofNat (n / 256),
+      UInt8.ofNat n] :=
+  ⟨be32_ofNat n (by simpa using h), rfl⟩
+
+example : be32 (UInt8.ofNat (4194314 / 16777216)) (UInt8.ofNat (4194314 / 65536))
+    (UInt8.ofNat (4194314 / 256)) (UInt8.ofNat 4194314) = 4194314 :=
+  (be32_roundtrip 4194314 (by decide)).1
+
+/-- The write loop of `mux.write` never faults and cuts the buffer at `mp`: the chunks
+    concatenate to the buffer, none is longer than `mp`, there is always at least one (an
+    empty `Write` sends one empty frame), and a buffer that fits is sent as one frame. -/
+theorem C10_chunks (mp : Nat) (hmp : 0 < mp) (buf : Bytes) :
+    ∃ cs, chunks mp buf = some cs ∧ cs.flatten = buf ∧ (∀ c ∈ cs, c.length ≤ mp) ∧ cs ≠ [] ∧
+      (buf.length ≤ mp → cs = [buf]) :=
+  ⟨chunkSpec mp buf, chunks_eq_spec mp hmp buf, chunkSpec_flatten mp buf,
+    chunkSpec_length_le mp hmp buf, chunkSpec_ne_nil mp buf, chunkSpec_small mp buf⟩
+
+example : chunks 3 [1, 2, 3, 4, 5, 6, 7] = some [[1, 2, 3], [4, 5, 6], [7]] := by decide
+example : chunks 3 [1, 2, 3, 4, 5, 6] = some [[1, 2, 3], [4, 5, 6]] := by decide
+example : chunks 3 [] = some [[]] := by decide
+/-- why `0 < mp` is a hypothesis: with `mp = 0` the loop "succeeds" having sent nothing -/
+example : chunks 0 [1, 2] = some [[]] := by decide
+
+/-- The reader loop applied to the concatenation of any sequence of encoded writes yields
+    exactly the frames written, in order, and no incomplete tail. -/
+theorem C10_frames (mp : Nat) (hmp : 0 < mp) (hmp32 : mp < 2 ^ 32) (ws : List (Nat × Bytes))
+    (hid : ∀ w ∈ ws, w.1 < 2 ^ 32) :
+    ∃ s, encodeWrites mp ws = some s ∧ decode s = (specFrames mp ws, []) := by
+  refine ⟨_, encodeWrites_eq mp hmp ws, ?_⟩
+  have hb := specFrames_bounds mp hmp (by simpa using hmp32) ws (by simpa using hid)
+  have := decode_frames (specFrames mp ws) hb []
+  simpa [decode_nil] using this
+
+example := C10_frames 3 (by decide) (by decide) [(1, [10, 11, 12, 13]), (2, []), (1, [14])] (by decide)
+example : (encodeWrites 3 [(1, [10, 11, 12, 13]), (2, []), (1, [14])]).map (fun s => (decode s).1) =
+    some [⟨1, [10, 11, 12]⟩, ⟨1, [13]⟩, ⟨2, []⟩, ⟨1, [14]⟩] := by
+  simp [encodeWrites, encodeWrite, framesOfWrite, chunks, writeLoop, sliceTo, sliceFrom,
+    encodeFrames, encodeFrame, be32Encode, decode, be32]
+
+/-- For every connection id, the bytes a reader of that id gets are exactly the
+    concatenation of the buffers written to that id, in order: complete and unmodified. -/
+theorem C10_stream (mp : Nat) (hmp : 0 < mp) (hmp32 : mp < 2 ^ 32) (ws : List (Nat × Bytes))
+    (hid : ∀ w ∈ ws, w.1 < 2 ^ 32) (id : Nat) :
+    ∃ s, encodeWrites mp ws = some s ∧
+      bytesDelivered id (decode s).1 = ((ws.filter (·.1 == id)).map (·.2)).flatten := by
+  obtain ⟨s, hs, hd⟩ := C10_frames mp hmp hmp32 ws hid
+  exact ⟨s, hs, by rw [hd]; exact bytesDelivered_specFrames mp id ws⟩
+
+/-- Message boundaries: the frames delivered to `id` are the chunks of the writes to `id`. -/
+theorem C10_messages (mp : Nat) (hmp : 0 < mp) (hmp32 : mp < 2 ^ 32) (ws : List (Nat × Bytes))
+    (hid : ∀ w ∈ ws, w.1 < 2 ^ 32) (id : Nat) :
+    ∃ s, encodeWrites mp ws = some s ∧
+      payloadsOf id (decode s).1 = (ws.filter (·.1 == id)).flatMap (fun w => chunkSpec mp w.2) := by
+  obtain ⟨s, hs, hd⟩ := C10_frames mp hmp hmp32 ws hid
+  exact ⟨s, hs, by rw [hd]; exact payloadsOf_specFrames mp id ws⟩
+
+/-- Isolation: what connection `id` delivers does not depend on the writes to other ids —
+    two write sequences that agree on `id` deliver the same frames on `id`. -/
+theorem C10_isolated (mp : Nat) (hmp : 0 < mp) (hmp32 : mp < 2 ^ 32)
+    (ws ws' : List (Nat × Bytes)) (hid : ∀ w ∈ ws, w.1 < 2 ^ 32) (hid' : ∀ w ∈ ws', w.1 < 2 ^ 32)
+    (id : Nat) (hsame : ws.filter (·.1 == id) = ws'.filter (·.1 == id)) :
+    ∃ s s', encodeWrites mp ws = some s ∧ encodeWrites mp ws' = some s' ∧
+      payloadsOf id (decode s).1 = payloadsOf id (decode s').1 := by
+  obtain ⟨s, hs, hd⟩ := C10_messages mp hmp hmp32 ws hid id
+  obtain ⟨s', hs', hd'⟩ := C10_messages mp hmp hmp32 ws' hid' id
+  exact ⟨s, s', hs, hs', by rw [hd, hd', hsame]⟩
+
+example : ∃ s s', encodeWrites 4 [(1, [1, 2]), (2, [9, 9, 9, 9, 9])] = some s ∧
+    encodeWrites 4 [(3, []), (1, [1, 2])] = some s' ∧
+    payloadsOf 1 (decode s).1 = payloadsOf 1 (decode s').1 :=
+  C10_isolated 4 (by decide) (by decide) [(1, [1, 2]), (2, [9, 9, 9, 9, 9])] [(3, []), (1, [1, 2])]
+    (by decide) (by decide) 1 (by decide)
+
+/-- Receive side, as long as no read uses a short buffer (guard, DESIGN §6 #12): in every
+    run of the mux end, for a connection object still registered under its id, what Read has
+    handed out followed by what is still queued is exactly every frame the reader routed to
+    that id since the object was opened — nothing lost, reordered or duplicated, whatever
+    the interleaving of reader, Reads, Writes and Closes. -/
+theorem C10_queue (cfg : Cfg) (tr : List Ev) (s : MuxSt) (hg : bigBuffers tr = true)
+    (hr : run (MuxSt.init cfg) tr = some s) (h : Nat) (c : Conn) (hc : s.objs[h]? = some c)
+    (hm : AList.lookup s.cmap c.id = some h) :
+    received h tr ++ c.queue = (payloadsOf c.id (delivered tr)).drop c.base ∧
+      c.queue.length ≤ cfg.qlen := by
+  have hi := run_inv (Inv.init cfg) hg hr
+  have ho := hi.obj h c hc
+  have hrc := run_rc h hr
+  have hseen := run_seen hr
+  have hcfg : s.cfg = cfg := run_cfg hr
+  simp only [rc, rcOf, MuxSt.init, hc, List.getElem?_nil, List.nil_append] at hrc hseen
+  rw [← hrc, ← ho.split, ho.got_eq hm, hseen, ← hcfg]
+  exact ⟨rfl, ho.qbound⟩
+
+example : ∃ s c, run (MuxSt.init { mp := 4, qlen := 2 })
+      [.openNew 7 0, .deliver ⟨7, [1]⟩, .deliver ⟨9, [5]⟩, .deliver ⟨7, [2]⟩,
+       .read 0 8 8 (.data [1] 1)] = some s ∧
+    s.objs[0]? = some c ∧ AList.lookup s.cmap c.id = some 0 ∧ c.queue = [[2]] := by
+  refine ⟨_, _, rfl, rfl, by decide, rfl⟩
+
+/-- Why the buffer guard is a hypothesis: a Read into a buffer smaller than the frame
+    (`cap < len`) returns ENOMEM and the frame is gone — the next Read returns the frame
+    after it (reproduced on the real code, excluded stream of the check). -/
+theorem unguarded_small_buffer_loses_frame :
+    ∃ s, run (MuxSt.init { mp := 4, qlen := 4 })
+        [.openNew 1 0, .deliver ⟨1, [1, 2, 3]⟩, .deliver ⟨1, [4]⟩,
+         .read 0 2 2 .enomem, .read 0 2 2 (.data [4] 1)] = some s ∧
+      received 0 [.openNew 1 0, .deliver ⟨1, [1, 2, 3]⟩, .deliver ⟨1, [4]⟩,
+         .read 0 2 2 .enomem, .read 0 2 2 (.data [4] 1)] = [[4]] :=
+  ⟨_, rfl, by decide⟩
+
+/-- … and with `len < frame ≤ cap` Read reports more bytes than it copied. -/
+theorem unguarded_short_len_truncates :
+    ∃ s, run (MuxSt.init { mp := 4, qlen := 4 })
+        [.openNew 1 0, .deliver ⟨1, [1, 2, 3]⟩, .read 0 2 8 (.data [1, 2] 3)] = some s :=
+  ⟨_, rfl⟩
+
 end Nri.Props.C10
